@@ -18,7 +18,7 @@ from hypothesis import strategies as st
 
 ROOT_NAMES = ["ns", "ns", "vendor", "zeta", "Alpha"]
 SUBS = ["sub", "deep", "x1", "Node", "A", "Msgs"]
-SHORTS = ["A", "B", "C", "Msg", "Zed", "a1"]
+SHORTS = ["A", "B", "C", "Msg", "Zed", "a1", "Foo2", "Foo10", "Fo"]
 
 
 def definitions(max_defs: int = 8, roots: int = 2, versions: bool = True, shorts: typing.Optional[typing.List[str]] = None, subs: typing.Optional[typing.List[str]] = None, min_roots: int = 1, min_defs: int = 1) -> st.SearchStrategy:
@@ -46,7 +46,7 @@ def definitions(max_defs: int = 8, roots: int = 2, versions: bool = True, shorts
                 same_ns = roots_[tgt["root"]]["name"] == roots_[d["root"]]["name"] and tgt["ns"] == d["ns"]
                 if tgt["service"]:
                     continue  # a service type cannot be a field type
-                refs.append({"to": to, "absolute": (not same_ns) or r["absolute"], "array": r["array"]})
+                refs.append({"to": to, "absolute": (not same_ns) or r["absolute"], "array": r["array"], "expr": bool(r.get("expr"))})
             d["refs"] = refs
             # minor versions under one major keep kind, sealing and extent: make siblings layout-identical (they still differ
             # in their ID constant and version)
@@ -61,7 +61,7 @@ def definitions(max_defs: int = 8, roots: int = 2, versions: bool = True, shorts
                          "deprecated": False, "legacy": False, "refs": []})
         return {"roots": roots_, "defs": defs}
 
-    version = st.sampled_from([[1, 0], [1, 0], [1, 1], [2, 0], [0, 1], [1, 2], [255, 255]]) if versions else st.just([1, 0])
+    version = st.sampled_from([[1, 0], [1, 0], [1, 1], [2, 0], [0, 1], [1, 2], [255, 255], [1, 10], [10, 0], [9, 1], [100, 2]]) if versions else st.just([1, 0])
     one = st.fixed_dictionaries(
         {
             "root": st.integers(0, 3),
@@ -75,7 +75,7 @@ def definitions(max_defs: int = 8, roots: int = 2, versions: bool = True, shorts
             "deprecated": st.just(False),
             "legacy": st.sampled_from([False, False, False, True]),
             "raw_refs": st.lists(
-                st.fixed_dictionaries({"to": st.integers(0, 20), "absolute": st.booleans(), "array": st.sampled_from([None, None, ["le", 2], ["fixed", 2]])}), max_size=3
+                st.fixed_dictionaries({"to": st.integers(0, 20), "absolute": st.booleans(), "array": st.sampled_from([None, None, ["le", 2], ["fixed", 2]]), "expr": st.booleans()}), max_size=3
             ),
         }
     )
@@ -122,6 +122,10 @@ def body(ws: typing.Any, idx: int, d: typing.Any, with_id: bool = True) -> typin
     lines.append("uint8[%d] payload" % d["size"])
     for k, ref in enumerate(d["refs"]):
         lines.append("%s ref%d" % (ref_text(ws, d, ref), k))
+    for k, ref in enumerate(d["refs"]):
+        if ref.get("expr"):
+            # the same reference once more inside an expression: resolution must give the same definition there
+            lines.append("@assert %s.ID == %d" % (ref_text(ws, d, dict(ref, array=None)), ref["to"]))
     return lines
 
 
